@@ -254,6 +254,13 @@ func mkAdd(a, b string) string {
 	if a == "0" {
 		return b
 	}
+	// right-nested normal form (+ x (+ y z)): index terms built by re-slicing keep the original offset as
+	// the first summand, which is what quantifier instantiation matches on
+	if strings.HasPrefix(a, "(+ ") {
+		if parts := splitSexp(a[1 : len(a)-1]); len(parts) == 3 {
+			return "(+ " + parts[1] + " " + mkAdd(parts[2], b) + ")"
+		}
+	}
 	return "(+ " + a + " " + b + ")"
 }
 func mkSub(a, b string) string {
